@@ -127,6 +127,13 @@ def steps_by_decoding(ctx, rule):
         continue
       decodes = [c for c in U.calls_in(fn) if isinstance(c.func, ast.Attribute) and c.func.attr in ('class_index_to_event', 'decode_event', 'labels_to_num_steps')]
       if decodes:
+        # located: a label picked by a fixed position other than the last one - what is added once after the loop (the duration of the
+        # note that is still sounding) belongs to the last label
+        lp_ = fi.params()[-1]
+        fixed = [x for x in ast.walk(fn) if isinstance(x, ast.Subscript) and isinstance(x.value, ast.Name) and x.value.id == lp_ and isinstance(U.const_value(x.slice), int) and U.const_value(x.slice) != -1]
+        if fixed:
+          ctx.ob(rule + '/last-label', fi, fixed[0], False, '%s decodes `%s`, a fixed position that is not the last: the duration added once at the end is that of the note still sounding, i.e. of the last '
+                 'label - with two or more labels of different durations the count differs from the steps of the generated sequence' % (q, norm_text(fixed[0])), construct='%s: what is added after the loop belongs to the last label' % q, definite=True)
         ctx.ob(rule, fi, decodes[0], True, 'each label is decoded (%s)' % decodes[0].func.attr, construct=cons)
         continue
       lbl = set()
